@@ -59,7 +59,9 @@ class Machine:
         self.seen_calls: List[Dict[str, Any]] = []
         self.op_index = -1
         self.sigs: List[str] = []
+        self.kept_results: List[Any] = []
         self._tl = threading.local()
+        world.REENTRY_HOOK = self._reentry
         del world.FIRED_BY[:]
         if _RR is not None:
             _RR._cache.clear()
@@ -67,7 +69,24 @@ class Machine:
                 _RR._named_args.clear()
             _RR._MAXCACHE = self.knobs.get("regex_maxcache") or _RR_DEFAULT
 
+    def _reentry(self) -> None:
+        """Called from inside a 'poke' probe function, i.e. in the middle of a filter
+        evaluation: advance some other live iterator by one node right now."""
+        if getattr(self._tl, "in_reentry", False):
+            return
+        self._tl.in_reentry = True
+        try:
+            for iid in sorted(self.iters):
+                rec = self.iters[iid]
+                if rec["state"] == "live" and not rec.get("busy"):
+                    self.stats["probe_reentrant_advance_inside_filter"] += 1
+                    self.events.append(["reentry", self.op_iter_next({"it": iid, "n": 1})])
+                    break
+        finally:
+            self._tl.in_reentry = False
+
     def close(self) -> None:
+        world.REENTRY_HOOK = None
         for it in self.iters.values():
             it["it"] = None
         if _RR is not None:
@@ -179,6 +198,9 @@ class Machine:
             return "skip"
         d["spec"] = {"json": copy.deepcopy(d["obj"])}
         d["snap"] = D.snapshot(d["obj"])
+        if not hasattr(self, "_mutated_docs"):
+            self._mutated_docs = set()
+        self._mutated_docs.add(op["doc"])
         # what a half-consumed iterator over this document yields from now on is not specified
         for rec in self.iters.values():
             if rec["doc"] == op["doc"] and rec["state"] == "live":
@@ -204,7 +226,7 @@ class Machine:
         name = op["name"]
         if name in e["obj"].function_extensions:
             return "skip"  # additive registration only (late binding is by design)
-        f = world.make_function(name, op["fspec"])
+        f = world.make_function(name, op["fspec"], e["obj"])
         e["obj"].function_extensions[name] = f
         e["spec"]["funcs"].append([name, op["fspec"]])
         e["fns"][name] = f
@@ -254,12 +276,27 @@ class Machine:
         return [q, exc]
 
     # -- calls ----------------------------------------------------------------
-    def _do_call(self, what: str, envspec: Dict[str, Any], env: Any, compiled: Any, q: str, did: str, entry: str, form: str, use_copy: bool, remember: bool = True, env_id: Optional[str] = None) -> Any:
+    def _do_call(self, what: str, envspec: Dict[str, Any], env: Any, compiled: Any, q: str, did: str, entry: str, form: str, use_copy: bool, remember: bool = True, env_id: Optional[str] = None, scribble: bool = False) -> Any:
         d = self.docs[did]
         obj = copy.deepcopy(d["obj"]) if use_copy else d["obj"]
         before = self._fired()
+        kept: List[Any] = []
+        raw: List[Any] = []
         with sched.in_library():
-            obs = world.outcome_of_call(lambda: world.call(env, compiled, q, obj, entry, form), entry, obj)
+            obs = world.outcome_of_call(lambda: world.call(env, compiled, q, obj, entry, form), entry, obj, kept, raw)
+        if scribble and raw and isinstance(raw[0], list):
+            # the returned list is the caller's: whatever the caller does to it is no business of later calls
+            lst = raw[0]
+            lst.reverse()
+            if lst:
+                lst.pop()
+            lst.append(None)
+            self.stats["results_scribbled_on_by_caller"] += 1
+        if kept and not use_copy and not scribble and len(self.kept_results) < 40:
+            # what a call returned belongs to the caller: no later call may change the
+            # node objects, nor the list object that holds them
+            holder = raw[0] if raw and isinstance(raw[0], list) else kept
+            self.kept_results.append((what, holder, [world.canon_node(n) for n in kept], did))
         if use_copy and D.snapshot(obj) != d["snap"]:
             self._violate("doc-mutated", f"{what}: the (copied) document was modified by the call")
         faulted = self._fired() != before
@@ -280,7 +317,7 @@ class Machine:
             return "skip"
         self.stats[f"calls_compiled_{op['entry']}"] += 1
         e = self.envs[c["env"]]
-        return self._do_call(f"{op['entry']}() of compiled {c['q']!r} (env {c['env']}) on doc {op['doc']}", c["envspec"], e["obj"], c["obj"], c["q"], op["doc"], op["entry"], "compiled", bool(op.get("copy")), env_id=c["env"])
+        return self._do_call(f"{op['entry']}() of compiled {c['q']!r} (env {c['env']}) on doc {op['doc']}", c["envspec"], e["obj"], c["obj"], c["q"], op["doc"], op["entry"], "compiled", bool(op.get("copy")), env_id=c["env"], scribble=bool(op.get("scribble")))
 
     def op_env_call(self, op: Dict[str, Any]) -> Any:
         e = self.envs.get(op["env"])
@@ -290,7 +327,7 @@ class Machine:
         self.stats[f"calls_{form}_{op['entry']}"] += 1
         if form == "module" and self.stats["registrations"]:
             self.stats["probe_module_call_after_registration_elsewhere"] += 1
-        return self._do_call(f"{form} {op['entry']}({op['q']!r}) env {op['env']} on doc {op['doc']}", copy.deepcopy(e["spec"]), e["obj"], None, op["q"], op["doc"], op["entry"], form, bool(op.get("copy")), env_id=op["env"])
+        return self._do_call(f"{form} {op['entry']}({op['q']!r}) env {op['env']} on doc {op['doc']}", copy.deepcopy(e["spec"]), e["obj"], None, op["q"], op["doc"], op["entry"], form, bool(op.get("copy")), env_id=op["env"], scribble=bool(op.get("scribble")))
 
     # -- iterators ------------------------------------------------------------
     def op_iter_open(self, op: Dict[str, Any]) -> Any:
@@ -438,6 +475,18 @@ class Machine:
             ev = self._do_call("final re-run of " + c["what"], envspec, c["env"], c["compiled"], c["q"], c["doc"], c["entry"], c["form"], False, remember=False)
             self.events.append(["recheck", ev])
             self.stats["final_rechecks"] += 1
+        # results handed out earlier must still be what they were
+        mutated_docs = {o for o in getattr(self, "_mutated_docs", set())}
+        for what, nodes, canon, did in self.kept_results:
+            if did in mutated_docs:
+                continue  # the caller changed the document itself; node values alias it by design
+            try:
+                now = [world.canon_node(n) for n in nodes]
+            except Exception as exc:  # noqa: BLE001
+                now = [["unreadable", type(exc).__name__]]
+            self.stats["kept_results_rechecked"] += 1
+            if now != canon:
+                self._violate("earlier-result-changed", f"the nodes returned by {what} were changed by later operations: {_brief(canon)} -> {_brief(now)}")
         # drain what is still live (each must still deliver its solitary sequence)
         for iid, rec in list(self.iters.items()):
             if rec["state"] == "live":
